@@ -6,7 +6,8 @@ The expression parser (`bardolph/parser/expr_parser.py`): precedence climbing dr
 come from `Bardolph.Generated.ExprTables`, i.e. from the Python source as it is now.
 
 Atoms (numbers, names, registers, bracketed calls) are abstracted to "a token carrying the
-code `_rvalue(PUSH)` emits for it".
+code `_rvalue(PUSH)` emits for it"; `not` is followed by a whole expression (`_rvalue_not`).
+`Props/C02Bridge.lean` proves that `ParseTok`'s expression routines agree with this model.
 -/
 namespace Bardolph.ExprParse
 open Bardolph Bardolph.Generated
